@@ -13,11 +13,17 @@ where
 
     let mut n = 0;
     let mut has_pending_cr = false;
+    let mut is_bol = true;
 
     loop {
         let src = reader.fill_buf().await?;
 
-        if src.first().map(|&b| b == DEFINITION_PREFIX).unwrap_or(true) {
+        // A definition starts at the beginning of a line only.
+        if src
+            .first()
+            .map(|&b| is_bol && b == DEFINITION_PREFIX)
+            .unwrap_or(true)
+        {
             break;
         }
 
@@ -32,7 +38,8 @@ where
             None => (src, src.len()),
         };
 
-        has_pending_cr = len == line.len() && line.ends_with(&[CARRIAGE_RETURN]);
+        is_bol = len > line.len();
+        has_pending_cr = !is_bol && line.ends_with(&[CARRIAGE_RETURN]);
 
         if line.ends_with(&[CARRIAGE_RETURN]) {
             let end = line.len() - 1;
@@ -99,6 +106,7 @@ mod tests {
 
         t(b"ACGT\r\nAC\r\n\r\n>sq1\r\n").await?;
         t(b"AC\rGT\nAC\r\r\nA\r").await?;
+        t(b"AC>GT\nA>\n>sq1\n").await?;
 
         Ok(())
     }
